@@ -506,7 +506,8 @@ def match_events(g, events):
             if "drop_type" in e and blk.kind == "drop":
                 loc = blk.drop_local
                 ty = n.fn.types.get(loc, "")
-                if re.search(e["drop_type"], ty):
+                if re.search(e["drop_type"], ty) and not any(
+                        re.search(frx, n.fn.name) and re.search(trx, ty) for frx, trx in e.get("allow", [])):
                     hit = True
                     if "fn" in e and not re.search(e["fn"], n.fn.name):
                         hit = False
@@ -519,8 +520,24 @@ def match_events(g, events):
                             hit = True
             if "stmt" in e:
                 for s in blk.stmts:
-                    if re.search(e["stmt"], s):
-                        hit = True
+                    m = re.search(e["stmt"], s)
+                    if m:
+                        ok = True
+                        if "group_local_from_call" in e or "group_local_not_from_call" in e:
+                            # the local captured by group 1 of the regex must (not) be defined
+                            # exactly once, by a call matching the given callee regex
+                            loc = m.group(1)
+                            dl = n.fn.defs().get(loc, [])
+                            for _ in range(6):   # follow `_a = copy/move _b` chains
+                                am = re.match(r"(?:move |copy |&|&mut )(_\d+)$", dl[0][1]) if len(dl) == 1 else None
+                                if not am:
+                                    break
+                                dl = n.fn.defs().get(am.group(1), [])
+                            rx = e.get("group_local_from_call") or e.get("group_local_not_from_call")
+                            from_call = len(dl) == 1 and dl[0][1].startswith("call:") and re.search(rx, dl[0][1][5:]) is not None
+                            ok = from_call if "group_local_from_call" in e else not from_call
+                        if ok:
+                            hit = True
             if "ret" in e and blk.kind == "return" and len(n.ctx) == 0:
                 hit = True
             if hit:
